@@ -342,7 +342,7 @@ def config_dict(ctxs, with_contexts=None):
 NAMED = {"time": "obs_time", "z": "depth_m", "lat": "y_deg", "lon": "x_deg"}
 
 
-def run_frontend(fe, tab, cfg_dict, tmpdir=None, twice=False):
+def run_frontend(fe, tab, cfg_dict, tmpdir=None, twice=False, warmup=None):
     """Returns the list of yielded ContextResults (evaluated).  With `twice`, the SAME stream object is run a second
     time and both lists are returned."""
     with warnings.catch_warnings():
@@ -405,6 +405,9 @@ def run_frontend(fe, tab, cfg_dict, tmpdir=None, twice=False):
         else:
             raise ValueError(fe)
         with np.errstate(all="ignore"), sut.time_limit(60):
+            if warmup is not None:
+                # the SAME stream object first runs another configuration (its results are not looked at)
+                list(st.run(warmup if isinstance(warmup, Config) else Config(warmup)))
             first = list(st.run(cfg))
             if twice:
                 return first, list(st.run(cfg))
